@@ -2,6 +2,6 @@ CONSTANTS N = 3 Cyclic = TRUE
   Ids <- MIds
   Graphs <- MGraphs
 SPECIFICATION Spec
-CONSTRAINT Depth
-INVARIANT NoReentry
+INVARIANT NoReentry QuietIsComplete LoadsClosure InverseExact
+PROPERTY Terminates
 CHECK_DEADLOCK FALSE
